@@ -119,8 +119,12 @@ func (r *raftState) getLastSnapshot() (index, term uint64) {
 
 func (r *raftState) setLastSnapshot(index, term uint64) {
 	r.lastLock.Lock()
-	r.lastSnapshotIndex = index
-	r.lastSnapshotTerm = term
+	// Never move backwards: a local snapshot that was started before a newer
+	// snapshot got installed completes after it.
+	if index >= r.lastSnapshotIndex {
+		r.lastSnapshotIndex = index
+		r.lastSnapshotTerm = term
+	}
 	r.lastLock.Unlock()
 }
 
